@@ -50,13 +50,8 @@ func c03SocketRound(seed int64) (sig, what string, max int, inconclusive string)
 		}
 	}()
 	for i := 0; i < N; i++ {
-		sln, err := net.Listen("tcp", "127.0.0.1:0")
+		sln, pln, err := ListenPair()
 		if err != nil {
-			return "", "", max, err.Error()
-		}
-		pln, err := net.ListenUDP("udp", &net.UDPAddr{IP: net.IPv4(127, 0, 0, 1), Port: sln.Addr().(*net.TCPAddr).Port})
-		if err != nil {
-			sln.Close()
 			return "", "", max, err.Error()
 		}
 		conf := &gossip.Config{BindAddr: sln.Addr().String(), AdvertiseAddr: sln.Addr().String(), Interval: 5 * time.Millisecond, MaxPacketSize: max}
@@ -153,4 +148,27 @@ func runC03Sockets(sh *core.Shard, rounds int, mine func(int) bool, caseSeed fun
 		}
 	}
 	return true
+}
+
+
+// ListenPair opens a TCP listener and a UDP socket on the same loopback port
+// (gossip uses one address for both); the UDP port of a freshly assigned TCP
+// port may be taken, so it retries.
+func ListenPair() (net.Listener, *net.UDPConn, error) {
+	var lastErr error
+	for try := 0; try < 20; try++ {
+		sln, err := net.Listen("tcp", "127.0.0.1:0")
+		if err != nil {
+			lastErr = err
+			continue
+		}
+		pln, err := net.ListenUDP("udp", &net.UDPAddr{IP: net.IPv4(127, 0, 0, 1), Port: sln.Addr().(*net.TCPAddr).Port})
+		if err != nil {
+			sln.Close()
+			lastErr = err
+			continue
+		}
+		return sln, pln, nil
+	}
+	return nil, nil, lastErr
 }
